@@ -27,3 +27,15 @@ def __getattr__(name):
         return "sunk-" + name
     f.__name__ = f.__qualname__ = name
     return f
+
+
+class Thing:  # noqa: F811 - richer stand-in used by the injection checks
+    def __init__(self, *a, **k):
+        self.args, self.kw, self.states = a, k, []
+        calls.append(("Thing", a, k))
+
+    def __setstate__(self, st):
+        if not hasattr(self, "states"):
+            self.args, self.kw, self.states = (), {}, []
+        self.states.append(st)
+        calls.append(("Thing.setstate", (st,), {}))
